@@ -351,6 +351,7 @@ def handle (toks : List String) : Option String :=
       let xs ← plusList x; let ds ← plusList delta
       revImplModel ctx sharing vtype seed xs ds (← role? ex) (← role? at') (← role? dest)
   | ["c04.revimpls"] => some implIds
+  | "c04.prf" :: _ => some "judge"
   | "c04.adaptive" :: _ => some "judge"
   | "c04.rbatch" :: _ => some "judge"
   | _ => none
@@ -450,6 +451,26 @@ def oracle (toks : List String) (impl : String) : Option String :=
         else o != "ok:" ++ x && o != "~")
       pure (if bad.isEmpty then "holds" else "fails helper " ++ toString (bad.headD 0) ++
         " returned `" ++ outs.getD (bad.headD 0 - 1) "" ++ "`: a wrong value was opened / differing copies were not detected (MaliciousRevealFailed expected at the helper that received the altered copy)")
+  | ["c04.prf", _lanes, _seed, _x, _k, at', dest, _step, delta] => do
+      -- eval_dy_prf opens R through `Reveal<UpgradedMaliciousContext> for Replicated` and z through `… for
+      -- MaliciousReplicated`: the helper that receives an altered copy must fail; honest runs return the pseudonyms
+      let at' ← role? at'; let dest ← role? dest
+      let ds ← plusList delta
+      let tampered := at'.isSome && dest.isSome && ds.any (fun d => d % ell ≠ 0)
+      if impl == "untouched" then pure "fails the copy to be altered was never sent: the receiving helper opens without a second copy" else
+      match impl.splitOn " " with
+      | [rf, hs] =>
+        let want := "ok:" ++ (rf.drop 4).toString
+        let outs := hs.splitOn ","
+        if outs.length ≠ 3 || !rf.startsWith "ref:" then pure "fails malformed response" else
+        let bad := [1, 2, 3].filter (fun role =>
+          let o := outs.getD (role - 1) ""
+          if tampered then (if dest == some role then o != "fail" else o != "~" && o != want)
+          else o != want)
+        pure (if bad.isEmpty then "holds" else "fails helper " ++ toString (bad.headD 0) ++ " returned `" ++
+          outs.getD (bad.headD 0 - 1) "" ++ "` from eval_dy_prf (expected " ++
+          (if tampered && dest == some (bad.headD 0) then "MaliciousRevealFailed: it received an altered copy" else want) ++ ")")
+      | _ => pure "fails malformed response"
   | ["c04.revimpls"] =>
       pure (if impl == implIds then "holds" else "fails the suite does not drive exactly the Reveal impls of basics/reveal.rs: " ++ implIds)
   | ["c04.adaptive", f, _rpb, _count, _seed, prog, inputs, _c, _k, _t, _kb, _d, _rev] => do
